@@ -205,7 +205,7 @@ func c11ExactConfigs(t *rapid.T, P int) (many []ech.Config, k, nl int) {
 func TestC11(t *testing.T) {
 	rec := ev.Get("C11")
 	rec.Rule("ConfigSpecs: id 0..255, KEM ids, public keys of 0..200 bytes and of 255..20000 bytes (valid X25519 points for interop cases), 0..8 cipher suites incl. unknown ids, public names of 1..255 bytes (and invalid lengths 0, 256..300), lists of 0..6 configs, and lists sized around the 65535-byte limit of the length prefix (largest that fits / one more / many more), lists with an exact payload length (values that are tags elsewhere in the format, e.g. 0xfe0d, and uniform 400..65535). Oracles: harness decoder written from draft section 4 reads Bytes() and agrees field by field; Spec()/ParseConfigList return the generated specs in order; harness-encoded configs parse to the same fields (both directions); crypto/tls client+server accept interop configs (outer SNI = public name, config id named, ECHAccepted on both sides); every strict prefix of a valid list is rejected; trailing bytes beyond declared lengths do not change the result; length fields +-1 never panic; one length field of a valid config changed by -4..+200: no panic and the result (acceptance and fields) is independent of every byte beyond the config's declared length, stand-alone and inside a list. distinct = encoding hash; non-trivial = name length not in {11,18} or id != 1 or non-default suites")
-	rec.Mandatory("suites_cut_mid_suite", "name_len1", "name_len239", "name_len240", "name_len255", "list0", "list_ge3", "interop", "single_suite_aead1", "single_suite_aead2", "single_suite_aead3", "invalid_name_len", "prefix_rejected", "newconfig", "lenfield:contents_length", "lenfield:public_key_length", "lenfield:cipher_suites_length", "lenfield:public_name_length", "lenfield:extensions_length", "list_around_64k", "unknown_version_entry", "payload_len_equals_version_tag", "trailing_64k_of_configs", "newconfig_concurrent")
+	rec.Mandatory("suites_cut_mid_suite", "name_len1", "name_len239", "name_len240", "name_len255", "list0", "list_ge3", "interop", "single_suite_aead1", "single_suite_aead2", "single_suite_aead3", "invalid_name_len", "prefix_rejected", "newconfig", "lenfield:contents_length", "lenfield:public_key_length", "lenfield:cipher_suites_length", "lenfield:public_name_length", "lenfield:extensions_length", "list_around_64k", "unknown_version_entry", "payload_len_equals_version_tag", "trailing_64k_of_configs", "newconfig_concurrent", "foreign_config_with_extensions")
 	rapid.Check(t, func(t *rapid.T) {
 		interop := rapid.IntRange(0, 9).Draw(t, "interop") == 0
 		n := rapid.IntRange(0, 6).Draw(t, "nconfigs")
@@ -244,6 +244,43 @@ func TestC11(t *testing.T) {
 			}
 			if d := sameSpec(back, s.ID, s.KEM, s.Pub, s.Suites, s.Name); d != "" {
 				ev.Violation(t, "C11", map[string]any{"bytes": hx(b)}, "Spec() does not return the encoded fields: %s", d)
+			}
+			// (2b) the same fields as another tool would publish them: any maximum_name_length and
+			// an extensions block with non-mandatory extensions (type high bit clear; a client
+			// must skip those it does not know, draft section 4.2) - the fields parse to the same values
+			if len(s.Name) >= 1 && len(s.Name) <= 255 && rapid.IntRange(0, 2).Draw(t, "foreign_encoding") == 0 {
+				var exts []byte
+				for j, ne := 0, rapid.IntRange(0, 3).Draw(t, "foreign_next"); j < ne; j++ {
+					d := hello.GenBytes(t, "foreign_extdata", rapid.IntRange(0, 20).Draw(t, "foreign_extlen"))
+					ty := 0x0100*(j+1) + rapid.IntRange(0, 255).Draw(t, "foreign_exttype") // distinct, high bit clear
+					exts = append(exts, byte(ty>>8), byte(ty), byte(len(d)>>8), byte(len(d)))
+					exts = append(exts, d...)
+				}
+				fmnl := uint8(rapid.IntRange(0, 255).Draw(t, "foreign_mnl"))
+				canon := uint8(min(len(s.Name)+16, 255))
+				foreign := hello.ConfigBytesExt(s.ID, s.KEM, s.Pub, s.Suites, fmnl, s.Name, exts)
+				var fs ech.ConfigSpec
+				if e := guard(func() error { var e error; fs, e = ech.Config(foreign).Spec(); return e }); e != nil {
+					ev.Violation(t, "C11", map[string]any{"bytes": hx(foreign)}, "Spec() refuses a well-formed ECHConfig with %d non-mandatory extension(s): %v", len(exts)/4, e)
+				}
+				if fs.MaximumNameLength != fmnl {
+					ev.Violation(t, "C11", map[string]any{"bytes": hx(foreign)}, "Spec() reports maximum_name_length %d, the config says %d", fs.MaximumNameLength, fmnl)
+				}
+				fs.MaximumNameLength = canon // sameSpec expects the derived value of this library's own encodings
+				if d := sameSpec(fs, s.ID, s.KEM, s.Pub, s.Suites, s.Name); d != "" {
+					ev.Violation(t, "C11", map[string]any{"bytes": hx(foreign)}, "Spec() of a config published by another tool: %s", d)
+				}
+				fl := append([]byte{byte(len(foreign) >> 8), byte(len(foreign))}, foreign...)
+				var fps []ech.ConfigSpec
+				if e := guard(func() error { var e error; fps, e = ech.ParseConfigList(fl); return e }); e != nil || len(fps) != 1 || func() bool {
+					fps[0].MaximumNameLength = canon
+					return sameSpec(fps[0], s.ID, s.KEM, s.Pub, s.Suites, s.Name) != ""
+				}() {
+					ev.Violation(t, "C11", map[string]any{"list": hx(fl)}, "ParseConfigList of a list holding a config published by another tool: %d specs, err=%v", len(fps), e)
+				}
+				if len(exts) > 0 {
+					cl = append(cl, "foreign_config_with_extensions")
+				}
 			}
 			// the caller may edit the returned spec (its fields may well be views of the config
 			// it was parsed from, so that config is not looked at again): an untouched copy of the
@@ -339,7 +376,7 @@ func TestC11(t *testing.T) {
 					}
 					return bs
 				}(), nil)
-				cl = append(cl, "trailing_64k_of_configs", "newconfig_concurrent")
+				cl = append(cl, "trailing_64k_of_configs", "newconfig_concurrent", "foreign_config_with_extensions")
 			}
 			var p2 []ech.ConfigSpec
 			e = guard(func() error {
@@ -544,7 +581,7 @@ func TestC11(t *testing.T) {
 				}
 			}
 			if P == 0xfe0d {
-				cl = append(cl, "payload_len_equals_version_tag", "trailing_64k_of_configs", "newconfig_concurrent")
+				cl = append(cl, "payload_len_equals_version_tag", "trailing_64k_of_configs", "newconfig_concurrent", "foreign_config_with_extensions")
 			}
 		}
 		// (7) an entry of a version this code does not know, whose opaque body happens to hold the
@@ -685,7 +722,7 @@ func TestC11(t *testing.T) {
 						ev.Violation(t, "C11", map[string]any{"bytes": hx(r.cfg), "want_id": id + uint8(i), "want_name": string(names[i])}, "NewConfig called from %d goroutines at once: call %d did not get the config it asked for (err=%v, decode err=%v): %+v", w, i, r.err, perr, f)
 					}
 				}
-				cl = append(cl, "newconfig_concurrent")
+				cl = append(cl, "newconfig_concurrent", "foreign_config_with_extensions")
 			}
 			if rapid.IntRange(0, 3).Draw(t, "nc_interop") == 0 {
 				l, _ := ech.ConfigList([]ech.Config{cfg})
